@@ -949,6 +949,26 @@ pub struct SimSocket {
     hops: u8,
     bound: Option<SocketAddr>,
     peer: Option<SocketAddr>,
+    /// A TCP probe: a non-blocking connect was started on this socket.
+    opened: bool,
+}
+
+/// The lifetime of a TCP probe's socket ends when the channel lets go of it (taken, expired, evicted or torn down).
+impl Drop for SimSocket {
+    fn drop(&mut self) {
+        if self.opened {
+            let id = self.id;
+            WORLD.with(|w| {
+                if let Ok(mut g) = w.try_borrow_mut() {
+                    if let Some(w) = g.as_mut() {
+                        w.tcp.remove(&id);
+                        let t = w.now();
+                        w.ev(json!({"e":"tcp_close","sock":id,"t":t}));
+                    }
+                }
+            });
+        }
+    }
 }
 
 impl SimSocket {
@@ -969,6 +989,7 @@ impl SimSocket {
                 hops: 64,
                 bound: None,
                 peer: None,
+                opened: false,
             })
         })
     }
@@ -1069,6 +1090,14 @@ impl Socket for SimSocket {
                     _ => return Ok(()),
                 };
                 w.on_wire(datagram, Some(self.id));
+                self.opened = true;
+                let (ready, out) = match w.tcp.get(&self.id).and_then(|s| s.ready_at.clone()) {
+                    Some((t, TcpOutcome::Connected)) => (t as i64, "syn"),
+                    Some((t, TcpOutcome::Refused)) => (t as i64, "rst"),
+                    None => (-1, "none"),
+                };
+                let t = w.now();
+                w.ev(json!({"e":"tcp_open","sock":self.id,"k":k,"t":t,"ready":ready,"out":out}));
                 // a non-blocking connect reports EINPROGRESS
                 return Err(IoError::Connect(io_err("inprogress"), address));
             }
@@ -1161,8 +1190,10 @@ impl Socket for SimSocket {
             let now = w.now();
             // a connect that has not completed has no pending error (SO_ERROR reads 0): nothing was handed over
             if st.ready_at.as_ref().is_none_or(|(t, _)| *t > now) {
+                w.ev(json!({"e":"tcp_take","sock":self.id,"t":now,"done":false}));
                 return Ok(None);
             }
+            w.ev(json!({"e":"tcp_take","sock":self.id,"t":now,"done":true}));
             match st.ready_at {
                 Some((_, TcpOutcome::Connected)) => {
                     w.log_delivery(&Origin::Resp(st.k), target, true, "syn", 0);
